@@ -1174,6 +1174,23 @@ def run_rt(case, ctx):
                             dd = tagged(dj.document()) if os.path.exists(dj.fn(FN_DOC)) else None
                             if dd != docs[jid]:
                                 oracle.append("job %s: document differs after the round trip" % jid)
+            elif imp_exc is None:
+                # the schema does not describe the export (a table with a wrong / re-typed / missing entry).  Which
+                # jobs such an import yields is not judged, but one that RETURNS must not have filed a job under an
+                # id that is not the hash of the state point it holds (F-16g: 1 vs 1.0 compare equal)
+                import hashlib
+                for jid in sorted(after):
+                    fn_sp = os.path.join(dst.workspace, jid, "signac_statepoint.json")
+                    try:
+                        with open(fn_sp) as f:
+                            held = json.load(f)
+                        hid = hashlib.md5(json.dumps(held, sort_keys=True).encode()).hexdigest()
+                    except (OSError, ValueError):
+                        held, hid = None, None
+                    if hid != jid:
+                        oracle.append("import with a schema that does not describe the export returned normally and filed "
+                                      "a job under id %s that holds the state point %r (id %s)" % (jid, held, hid))
+                tags.append("inexact-schema-import-ok")
             snap_src2 = tree_snapshot(src.path)
             if snap_src2 != snap_src0:
                 oracle.append("import changed the source project")
